@@ -32,7 +32,8 @@ pub struct Lean {
   pub sent: u64
 }
 
-const KEEP: usize = 50;
+const KEEP: usize = 400;
+const KEEP_PER_CLASS: usize = 6;
 
 impl Lean {
   pub fn start() -> Lean {
@@ -62,6 +63,7 @@ impl Lean {
     let reader = spawn(move || {
       let mut r = BufReader::with_capacity(1 << 16, stdout);
       let mut mismatches: Vec<Mismatch> = Vec::new();
+      let mut per_class: std::collections::HashMap<(u8, String), usize> = std::collections::HashMap::new();
       let mut n_mismatch: u64 = 0;
       let mut line = String::new();
       for msg in fw_rx {
@@ -74,13 +76,19 @@ impl Lean {
             };
             if got != expected {
               n_mismatch += 1;
-              if mismatches.len() < KEEP {
+              // keep the first few of every CLASS of disagreement (request kind + verdict), so that a flood of
+              // one kind early in an exploration cannot hide a different violation found later
+              let class = (kind, if got.starts_with("viol:") { got.split(' ').next().unwrap_or("").to_string() } else { String::new() });
+              let c = per_class.entry(class).or_insert(0usize);
+              if *c < KEEP_PER_CLASS && mismatches.len() < KEEP {
+                *c += 1;
                 mismatches.push(Mismatch { kind, tag, req, expected, got });
               }
             }
           },
           Msg::Sync => {
             let ms = std::mem::replace(&mut mismatches, Vec::new());
+            per_class.clear();
             let n = n_mismatch;
             n_mismatch = 0;
             if sync_tx.send((n, ms)).is_err() { break; }
